@@ -486,7 +486,7 @@ class Inliner:
             kind = None
             if isinstance(st, ast.Expr) and isinstance(st.value, ast.Call):
                 call, kind = st.value, "expr"
-            elif isinstance(st, ast.Assign) and isinstance(
+            elif isinstance(st, (ast.Assign, ast.AnnAssign)) and isinstance(
                     st.value, ast.Call):
                 call, kind = st.value, "assign"
             elif isinstance(st, ast.Return) and isinstance(
